@@ -757,14 +757,14 @@ Proof. intros [_ H1] [H2 H3]. split; [exact H2|congruence]. Qed.
 Lemma safe_parse_frame fmt p frame_id : PInv p -> 0 <= frame_id < pi_nframes p ->
   safe (parse_frame inflate fmt p frame_id) (step_post p).
 Proof.
-  intros HP Hf. unfold parse_frame. safe_steps.
+  intros HP Hf. unfold parse_frame; rewrite ?frev_eq. safe_steps.
   { lia. }
   set (p1 := with_times p _).
   assert (HP1 : step_post p p1).
   { subst p1. destruct HP as [H1 H2 H3 H4 H5]. split; [|reflexivity]. split; pi_cbn; assumption. }
   eapply safe_bind; [apply (safe_iterZ _ _ _ (fun st => chunks_bytes (fst st))); [constructor|]|].
   - intros st Hst. apply safe_read_chunk. exact Hst.
-  - intros st Hst. apply safe_lift. cbv beta in Hst.
+  - intros st Hst. rewrite frev_eq. apply safe_lift. cbv beta in Hst.
     assert (Hrev : chunks_bytes (rev (fst st))) by (apply Forall_rev; exact Hst).
     eapply okres_weaken.
     + apply (okres_rfold (step_post p)); [|exact HP1]. intros b ch Hb Hin.
@@ -854,7 +854,7 @@ Qed.
 
 Lemma validate_nopanic h p : PInv p -> okres (fun _ => True) (validate h p).
 Proof.
-  intros [H1 H2 H3 H4 H5]. unfold validate.
+  intros [H1 H2 H3 H4 H5]. unfold validate; rewrite ?frev_eq.
   eapply okres_rbind with (P := fun _ => True).
   { destruct (compute_parents (rev (pi_layers_rev p))) as [ps|e|s] eqn:E; try exact I. exact (parents_no_panic _ _ E). }
   intros parents _. eapply okres_rbind; [apply validate_tilesets_nopanic|]. intros tss _.
